@@ -316,6 +316,33 @@ pub proof fn lemma_supp_ge_top(nodes: Seq<BddNode>, t: int, v: Var)
         }
     }
 }
+// ... and every variable of the support IS depended on (reduced + duplicate-free): structural support == semantic dependence
+pub proof fn lemma_supp_dep(nodes: Seq<BddNode>, t: int, v: Var) -> (a: Asg)
+    requires nodes_wf(nodes), nodup(nodes), 0 <= t < nodes.len(), supp(nodes, t).contains(v),
+    ensures den(nodes, t)(upd(a, v.0, true)) != den(nodes, t)(upd(a, v.0, false))
+    decreases t
+{
+    lemma_supp_ge_top(nodes, t, v);
+    assert(inner_ok(nodes, t));
+    let top = nodes[t].var.0; let lo = nodes[t].lo.0 as int; let hi = nodes[t].hi.0 as int;
+    if v == nodes[t].var { lemma_dep(nodes, t) }
+    else {
+        let side = !supp(nodes, lo).contains(v);
+        let c = if side { hi } else { lo };
+        assert(supp(nodes, c).contains(v));
+        lemma_supp_ge_top(nodes, c, v);
+        let a0 = lemma_supp_dep(nodes, c, v);
+        let a = upd(a0, top, side);
+        lemma_den_indep_small(nodes, c, top);
+        assert(v.0 != top);
+        assert forall|b: bool| den(nodes, t)(upd(a, v.0, b)) == den(nodes, c)(upd(a0, v.0, b)) by {
+            assert(upd(a, v.0, b)(top) == side);
+            assert(upd(upd(a0, top, side), v.0, b) =~= upd(upd(a0, v.0, b), top, side));
+            assert(den(nodes, c)(upd(upd(a0, v.0, b), top, side)) == den(nodes, c)(upd(a0, v.0, b)));
+        }
+        a
+    }
+}
 pub open spec fn exp32(d: int) -> nat { ((d as usize) as u32) as nat }
 pub open spec fn models_spec(nodes: Seq<BddNode>, t: int) -> (int, int)
     decreases t
